@@ -87,13 +87,28 @@ theorem get_never_invents (v : Variant) (s s' : State) (p : Store.Pid) (ns : NS)
     · rename_i hc; exact Or.inr hc.1
     · simp at hs
 
-/-- a failed `Get` changes nothing (the partially copied temp file is removed by `fs.Set`) -/
+/-- A failed `Get` never touches the remote store, what processes consider confirmed, or the taint markers, and changes
+    nothing at all unless the local tier was filled (`f = true`: the copy into the local cache completed and only the final
+    re-open failed) — and then the local tier holds exactly the remote value for that key. (A copy that breaks off in the
+    middle leaves nothing: the temp file is removed by `fs.Set`.) -/
 theorem failed_get_unchanged (v : Variant) (s s' : State) (p : Store.Pid) (ns : NS) (k : Bytes) (f : Bool)
-    (hs : step v s (.getRes p ns k none f) = some s') : s' = s := by
+    (hs : step v s (.getRes p ns k none f) = some s') :
+    s'.remote = s.remote ∧ s'.conf = s.conf ∧ s'.rtaint = s.rtaint ∧ s'.ltaint = s.ltaint ∧
+    ((f = false ∧ s' = s) ∨
+     (f = true ∧ ∃ b, s.remote ns k = some b ∧ s'.loc = upd s.loc (s.mach p) (put (s.loc (s.mach p)) ns k b))) := by
   simp only [step] at hs
   split at hs
   · simp at hs
-  · split at hs <;> simp at hs; exact hs.symm
+  · split at hs
+    · rename_i hf
+      split at hs
+      · rename_i b hb
+        simp at hs; subst hs
+        exact ⟨rfl, rfl, rfl, rfl, Or.inr ⟨hf, b, hb, rfl⟩⟩
+      · simp at hs
+    · rename_i hf
+      simp at hs; subst hs
+      exact ⟨rfl, rfl, rfl, rfl, Or.inl ⟨by simpa using hf, rfl⟩⟩
 
 end Grog.C08
 
@@ -177,11 +192,7 @@ open Grog.Store (NS Res)
 theorem get_does_not_confirm (v : Variant) (s s' : State) (p : Store.Pid) (ns : NS) (k : Bytes) (r : Option Blob) (f : Bool)
     (hs : step v s (.getRes p ns k r f) = some s') : s'.conf = s.conf := by
   cases r with
-  | none =>
-    simp only [step] at hs
-    split at hs
-    · simp at hs
-    · split at hs <;> simp at hs; rw [← hs]
+  | none => exact (failed_get_unchanged v s s' p ns k f hs).2.1
   | some b =>
     simp only [step] at hs
     split at hs
